@@ -1,6 +1,7 @@
 """C++ driver generation for C02: the same catalogue and value vectors as C01, driven through the generated C++ class API."""
 import json
 from callgen import W, CTY, ENUM_VALS
+from abisig import fname
 
 CPP_SUPPORT = r'''
 #include <cstdio>
@@ -50,6 +51,10 @@ class CppGen:
             return t["n"]
         if k == "unit":
             return "void"
+        if k == "str":
+            return "std::string_view" if t["enc"] in ("utf8", "u8") else "std::u16string_view"
+        if k == "slice":
+            return "diplomat::span<%s%s>" % ("const " if t["m"] == "imm" else "", CTY[t["e"]])
         raise ValueError(k)
 
     def prim_lit(self, p, bits):
@@ -159,7 +164,7 @@ class CppGen:
             for i, f in enumerate(self.defs[t["n"]]):
                 if i:
                     out.append('L(",");')
-                self.fmt(f, "(%s).f%d" % (e, i), out)
+                self.fmt(f, "(%s).%s" % (e, fname(i)), out)
             out.append('L("}");')
         elif k in ("opq", "opqmut"):
             out.append('L("p:%%llx", (unsigned long long)(uintptr_t)(&(%s)));' % e)
